@@ -902,6 +902,16 @@ class UndirectedGraph(Graph):
                 "with isolated vertices."
             )
         # Compute MST. It returns an undirected graph.
+        # a spanning tree only exists for a connected graph
+        if (
+            csgraph.connected_components(
+                self.adjacency_matrix, directed=False, return_labels=False
+            )
+            != 1
+        ):
+            raise ValueError(
+                "Cannot compute minimum spanning tree of a graph that is not connected."
+            )
         mst_adjacency = csgraph.minimum_spanning_tree(self.adjacency_matrix)
         # Get directed tree from the above undirected graph using DFS.
         mst_adjacency = csgraph.depth_first_tree(
@@ -2785,6 +2795,16 @@ class PointUndirectedGraph(PointGraph, UndirectedGraph):
                 "with isolated vertices."
             )
         # Compute MST. It returns an undirected graph.
+        # a spanning tree only exists for a connected graph
+        if (
+            csgraph.connected_components(
+                self.adjacency_matrix, directed=False, return_labels=False
+            )
+            != 1
+        ):
+            raise ValueError(
+                "Cannot compute minimum spanning tree of a graph that is not connected."
+            )
         mst_adjacency = csgraph.minimum_spanning_tree(self.adjacency_matrix)
         # Get directed tree from the above undirected graph using DFS.
         mst_adjacency = csgraph.depth_first_tree(
